@@ -33,7 +33,7 @@ CHECKS = {
              "derived from the statement judges each step (which invariants, how often, before/after the body, none around "
              "exempt members, none while a constructor is on the stack, recovery after a violation).",
         note="Trusted: CPython, renderer, monitor. Slot wrappers inherited from object/tuple are not triggered (statement silent). "
-             "Three recorded defects (KF-C03-1..3) are matched by narrow predicates.",
+             "Two recorded defects (KF-C03-2, KF-C03-3) are matched by narrow predicates.",
         technique="exhaustive operation-history enumeration with single-fault truth sequences on the real classes, statement-derived monitor",
         design="3/C03"),
     "C04": dict(
@@ -126,6 +126,17 @@ CHECKS = {
              "invariants are not judged (statement silent).",
         technique="exhaustive differential enumeration of sync/async twin programs on the real code; placement product table",
         design="3/C13"),
+    "C14": dict(
+        text="Differential exploration against a bare twin (same source without the icontract decorators): (a) callable kind x "
+             "signature x every decorator stack of 1-4 contract decorators with a foreign functools.wraps decorator at every "
+             "position (thorough: two) with all contracts satisfied - objects received by the body, identity of result / raised "
+             "exception, foreign-decorator run counts, name/qualname/doc/module/annotations/signature/abstractness/coroutine-ness, "
+             "__wrapped__ chain down to the original, exactly one checker; (b) class style x invariant check_on combinations x "
+             "object|DBC x subclass variant (none, without __init__, with __init__(z), overriding __new__) with a fixed script of "
+             "constructions and member uses that must behave as on the twin; invariant(...)(K) is K.",
+        note="Trusted: CPython, the twin renderer. Rebuilding kwargs into new dict objects is not observable by value identity and not claimed.",
+        technique="exhaustive differential enumeration (contracted program vs bare twin) of decorator stacks, signatures and class shapes on the real code",
+        design="3/C14"),
     "C16": dict(
         text="Exhaustive exploration of family F (all kinds, sync/async, plain/DBC chains of <=3 classes, own and inherited "
              "stacks of pre/post/snapshot/invariant, two decorator layouts, foreign functools.wraps decorators at top/middle/"
